@@ -173,6 +173,11 @@ func (db *hostKeyDB) IsRevoked(key *ssh.Certificate) bool {
 	if _, ok := db.revoked[string(key.SignatureKey.Marshal())]; ok {
 		return true
 	}
+	// A revoked plain key also revokes the certificates issued for it
+	// (OpenSSH compares the certificate's public key with the revoked keys).
+	if _, ok := db.revoked[string(key.Key.Marshal())]; ok {
+		return true
+	}
 	return false
 }
 
